@@ -81,3 +81,22 @@ Example ttrie_serialize_scaled_nonvacuous :
   tt_wf t /\ tt_name t = [] /\ tt_fitsb 2 3 t = true /\
   option_map tt_iterate (tt_deserialize (tt_serialize 2 3 t)) = Some [([102;111;111], 3); ([102;111;111;98;97;114], 4)].
 Proof. vm_compute. repeat split. Qed.
+
+(* ---- children stay sorted: sort.Search is modelled as the binary search of package sort and proved to find the
+   sorted place; tt_sortedb t: at every node the children's first bytes are strictly increasing (hence tt_wf) ---- *)
+From Pyro Require Import Proofs.C18SortedProofs.
+
+Theorem ttrie_insert_sorted : forall key v merge t, tt_sortedb t = true -> tt_sortedb (tt_insert key v merge t) = true.
+Proof. exact tt_insert_sorted. Qed.
+Print Assumptions ttrie_insert_sorted.
+
+Theorem ttrie_sorted_wf : forall t, tt_sortedb t = true -> tt_wf t.
+Proof. exact tt_sorted_wf. Qed.
+Print Assumptions ttrie_sorted_wf.
+
+(* for sorted tries (every trie built by Insert) the decoded trie is the original with every count floored:
+   same structure, same order, hence the same Iterate sequence *)
+Theorem ttrie_serialize_scaled_exact : forall m d t, tt_sortedb t = true -> tt_fitsb m d t = true ->
+  tt_deserialize (tt_serialize m d t) = Some (tt_map_values (tt_scale_val m d) t).
+Proof. exact tt_roundtrip_exact. Qed.
+Print Assumptions ttrie_serialize_scaled_exact.
